@@ -176,7 +176,10 @@ theorem parse_imin_spec (v : String) :
     (∀ x, pyInt v = .ok x → parseImin v = .ok (x, decide (x ≥ 0))) ∧
     (pyInt v = .error .valueError → ∃ d, parseImin v = .ok (d, false)) := by
   constructor
-  · intro x hx; simp [parseImin, hx, pure, Except.pure]
+  · intro x hx
+    simp [parseImin, hx, pure, Except.pure]
+    -- equivalent spellings of the test (`not x < 0`, `0 <= x`) leave a Boolean identity over the integers
+    all_goals (try (by_cases h0 : x < 0 <;> simp [h0] <;> omega))
   · intro he; exact ⟨0, by simp [parseImin, he, pure, Except.pure]⟩
 
 /-- `--imax=v`: empty means unbounded, otherwise as `--imin`. -/
@@ -187,17 +190,21 @@ theorem parse_imax_spec (v : String) :
   refine ⟨?_, ?_, ?_⟩
   · intro h; simp [parseImax, h, pure, Except.pure]
   · intro h x hx
-    simp [parseImax, hx, pure, Except.pure]
-    intro h0; subst h0; simp at h
+    have hne : v.length ≠ 0 := by omega
+    simp [parseImax, hx, pure, Except.pure, hne]
+    all_goals (try (by_cases h0 : x < 0 <;> simp [h0] <;> omega))
   · intro h he
     refine ⟨none, ?_⟩
-    simp [parseImax, he, pure, Except.pure]
-    intro h0; subst h0; simp at h
+    have hne : v.length ≠ 0 := by omega
+    simp [parseImax, he, pure, Except.pure, hne]
 
 /-- `--istop=v` is accepted exactly for sat/unsat/unknown, case-insensitively. -/
 theorem parse_istop_spec (v : String) :
     parseIstop v = .ok (pyUpper v, decide (pyUpper v = "SAT" ∨ pyUpper v = "UNSAT" ∨ pyUpper v = "UNKNOWN")) := by
   simp [parseIstop, pure, Except.pure]
+  -- `if x not in (...): return False; return True` instead of `return x in [...]`
+  all_goals (try (split <;> simp_all))
+  all_goals (try (by_cases h1 : pyUpper v = "UNKNOWN" <;> by_cases h2 : pyUpper v = "UNSAT" <;> simp_all))
 
 /-- `pyInt` (the model of `int(str)`) fails only with ValueError -/
 theorem pyInt_error (v : String) (e : PyErr) (h : pyInt v = .error e) : e = .valueError := by
